@@ -288,7 +288,9 @@ def number_literal(rng):
 _SPFX = ['', '', '', 'r', 'R', 'u', 'U', 'b', 'B', 'br', 'Br', 'bR', 'BR', 'rb', 'rB', 'Rb', 'RB', 'f', 'F', 'fr', 'Fr', 'fR', 'FR', 'rf', 'rF', 'Rf', 'RF',
          'ur', 'bu', 'fb', 'rr']
 _SBODY = ['a', ' ', '%s', '"', "'", '\\"', "\\'", '\\\\', '\\n', '\\\n', '\\\r\n', '\\x41', '\\N{DASH}', '\\u1234', '{x}', '{{', '}}', '{x!r:>{w}}', '#', 'é',
-          '\\', '\n', '\t', '\\0', '\\400', '\\8', '""', "''", '{', '}', '\\{', ':', '=']
+          '\\', '\n', '\t', '\\0', '\\400', '\\8', '""', "''", '{', '}', '\\{', ':', '=',
+          # characters str.splitlines() treats as line breaks but Python source does not
+          '\x1c', '\x1d', '\x1e', '\x85', '\u2028', '\u2029', '\x0b', '\x0c']
 
 
 def string_literal(rng):
@@ -340,7 +342,8 @@ def lexical_program(rng):
         else:
             lines.append(rng.choice(['x = a<<b>>c\n', 'x = a**-b\n', 'x = a//b\n', 'x @= y\n', 'x = a<=b>=c!=d\n', 'x = a->b\n' if False else 'def f() -> int: pass\n',
                                      'x = a if b else c\n', 'x = [...]\n', 'x = a.b. c\n', 'x = a ;y = b\n', 'x = (a:=1)\n', 'x |= 1; x ^= 2; x &= 3\n',
-                                     'x = not-a\n', 'x = a<b\n', 'x=~a\n', 'x = a\\\n + b\n', 'x = (a,\n  b)\n', 'if a:\n\tb\n', 'if a:\n  b\n  c\n', 'x = 1 # c\n#d\n']))
+                                     'x = not-a\n', 'x = a<b\n', 'x=~a\n', 'x = a\\\n + b\n', 'x = (a,\n  b)\n', 'if a:\n\tb\n', 'if a:\n  b\n  c\n', 'x = 1 # c\n#d\n',
+                                     'x = 1  # a\x1eb\ny = 2\n', '# \x1c\x1d\x85 c\nx = 1\n', 'x = 1 # \u2028 y\nz = 2 # \x0b\n', '#\x0c\nx = (1, # \u2029\n 2)\n']))
     return ''.join(lines)
 
 
